@@ -393,6 +393,31 @@ pub fn gen_c02(rng: &mut Rng) -> ConnCase {
     c
 }
 
+/// C02: lines of every length.  Connection `variant` carries four requests whose request lines and
+/// one of whose header lines are exactly L bytes long (CR LF not counted) for four consecutive L;
+/// variants from 80 on take the lengths around the powers of two up to 16 KiB.
+pub fn gen_c02_sweep(rng: &mut Rng, variant: usize) -> ConnCase {
+    const EDGES: &[usize] = &[510, 1022, 1026, 2046, 4094, 8190, 16382];
+    let base = if variant < 80 { 2 + 4 * variant } else { EDGES[(variant - 80) % EDGES.len()] };
+    let mut reqs = vec![];
+    let mut script = vec![];
+    for (i, l) in (base..base + 4).enumerate() {
+        let mut r = AReq::get("/");
+        // request line: "GET " + url + " HTTP/1.1" = l bytes (at least 14)
+        let ul = std::cmp::max(l, 14) - 13;
+        r.url = format!("/{}", rand_token(rng, ul - 1));
+        // header line: name ":" value = l bytes
+        let (name, value) = if l >= 12 { ("X-Sweep".to_string(), rand_token(rng, l - 9)) } else { ("A".to_string(), rand_token(rng, l - 2)) };
+        let sep = if l >= 12 { ": " } else { ":" };
+        r.hdrs = vec![("Host".into(), "a".into()), (name.clone(), value.clone()), ("X-After".into(), format!("z{}", i))];
+        r.last = false;
+        r.raw = Some(format!("GET {} HTTP/1.1\r\nHost: a\r\n{}{}{}\r\nX-After: z{}\r\n\r\n", r.url, name, sep, value, i).into_bytes());
+        reqs.push(r);
+        script.push(simple_action(i, rng));
+    }
+    assemble(rng, &reqs, script, Mode::HalfClose, "i_fam=sweep")
+}
+
 /// C02 / C11 / C12: one persistent connection that carries a long conversation.  What has gone
 /// before on a connection must not matter: the 420th small request, the 8th request with a 1.5 KiB
 /// cookie and the 300th request with a head above the read buffer are delivered and answered like
@@ -904,7 +929,7 @@ pub fn gen_c12(rng: &mut Rng) -> ConnCase {
 /// keeps open; the application answers without reading it.  The client must see the response and
 /// then end-of-stream (the server's sending side closes once the last response is written), although
 /// discarding the rest of the body — which answering a request includes — waits for the client.
-pub fn gen_c12_stalled(rng: &mut Rng) -> ConnCase {
+pub fn gen_c12_stalled(rng: &mut Rng, gone: bool) -> ConnCase {
     let mut reqs = vec![];
     let mut script = vec![];
     if rng.chance(1, 2) {
@@ -925,7 +950,9 @@ pub fn gen_c12_stalled(rng: &mut Rng) -> ConnCase {
     reqs.push(r);
     let k = script.len();
     script.push(Action { as_reader: 0, read_total: 0, buf: 1, delay_ms: 0, fin: Finish::Respond(ok_resp(k, rng)), zero_read: false });
-    let mut c = assemble(rng, &reqs, script, Mode::Open, "i_stall=1");
+    // ... or closes its sending side there: the rest of the body will never come, the answer is
+    // sent and the connection ends
+    let mut c = if gone { assemble(rng, &reqs, script, Mode::HalfClose, "i_cutbody=1") } else { assemble(rng, &reqs, script, Mode::Open, "i_stall=1") };
     // only the first part of the body is ever sent
     let cut = *rng.pick(&[1usize, 200, 1100]);
     // (the terminal chunk is cut off too — for a chunked body only: a Content-Length body may happen to end in those bytes)
@@ -967,8 +994,21 @@ pub fn gen_c18(rng: &mut Rng) -> ConnCase {
     let mut reqs = vec![r];
     let mut script = vec![a];
     if rng.chance(1, 2) {
-        reqs.push(AReq::get("/next"));
-        script.push(simple_action(1, rng));
+        // what one request expected says nothing about the next: a following request without the
+        // header, with or without a body that the application reads, gets its final response only
+        let mut nx = AReq::get("/next");
+        let mut a = simple_action(1, rng);
+        if rng.chance(1, 2) {
+            let m = *rng.pick(&[3usize, 1024, 1500]);
+            nx.method = "POST".into();
+            let fr = if rng.chance(1, 4) { Framing::Chunked } else { Framing::Len };
+            set_body(rng, &mut nx, fr, m);
+            a.as_reader = 1;
+            a.read_total = m + 1;
+            a.buf = 700;
+        }
+        reqs.push(nx);
+        script.push(a);
     }
     let mut c = assemble(rng, &reqs, script, Mode::HalfClose, "");
     if expect {
